@@ -307,10 +307,10 @@ func c17DrawPlan(rt *rapid.T) *c17Plan {
 	p := &c17Plan{w: newPdbWorld()}
 	maxN := 40
 	if vs.Thorough() {
-		maxN = 120
+		maxN = 100
 	}
 	n := rapid.IntRange(5, maxN).Draw(rt, "transitions")
-	if vs.Thorough() && rapid.IntRange(0, 19).Draw(rt, "long") == 0 {
+	if vs.Thorough() && rapid.IntRange(0, 49).Draw(rt, "long") == 0 {
 		n = rapid.IntRange(150, 300).Draw(rt, "longTransitions")
 	}
 	p.maxLayers = rapid.SampledFrom([]int{1, 2, 4, 8, 128}).Draw(rt, "maxDiffLayers")
@@ -391,7 +391,7 @@ func TestVerifC17Rollback(t *testing.T) {
 			targets = append(targets, recoverable[len(recoverable)-1], recoverable[0])
 			extra := 1
 			if vs.Thorough() {
-				extra = 4
+				extra = 2
 			}
 			for k := 0; k < extra; k++ {
 				targets = append(targets, recoverable[rapid.IntRange(0, len(recoverable)-1).Draw(rt, "target")])
